@@ -190,6 +190,8 @@ impl WriteCircuitBreaker {
     fn transition_to_open(&self) {
         self.state
             .store(CircuitState::Open as u8, Ordering::Release);
+        #[cfg(feature = "verif-hooks")]
+        crate::verif::sched_point();
         // Reset half-open counters
         self.half_open_call_count.store(0, Ordering::Release);
         self.half_open_success_count.store(0, Ordering::Release);
@@ -208,6 +210,8 @@ impl WriteCircuitBreaker {
                 Ordering::Acquire,
             )
             .is_ok();
+        #[cfg(feature = "verif-hooks")]
+        crate::verif::sched_point();
         if transitioned {
             // Reset half-open counters (only by the thread that made the transition, or the
             // calls other threads have been admitted for since would be forgotten)
